@@ -124,3 +124,62 @@ Theorem C02_graft_norm_transfer_plain : forall rnd (c : cfg (F:=R)) t h dims ans
      = (norm2 (R_ops rnd) Pg * (norm2 (R_ops rnd) Ps / (norm2 (R_ops rnd) Ps + graft_eps (R_ops rnd))))%R.
 Proof. exact graft_norm_transfer_plain. Qed.
 Print Assumptions C02_graft_norm_transfer_plain.
+
+(* torch.optim is element-wise: one torch step on a parameter made of two pieces (values, state and gradient split at the
+   same place) is the two torch steps side by side.  Hence the restriction of a parameter's torch trajectory to the
+   elements of one Shampoo block is that block's own torch trajectory, however the parameter is merged and blocked
+   (that the blocks tile the parameter is C05). *)
+Theorem C02_sgd_step_blockwise : forall F (Op : ops F) hp w1 w2 (bf1 bf2 : option (list F)) g1 g2,
+  length g1 = length w1 -> match bf1 with Some x => length x = length w1 | None => True end ->
+  (bf1 = None <-> bf2 = None) ->
+  sgd_step Op hp (mkSgd (w1 ++ w2) (app_buf bf1 bf2)) (g1 ++ g2) =
+  let a := sgd_step Op hp (mkSgd w1 bf1) g1 in
+  let b := sgd_step Op hp (mkSgd w2 bf2) g2 in
+  mkSgd (sgd_w a ++ sgd_w b) (app_buf (sgd_buf a) (sgd_buf b)).
+Proof. exact @sgd_step_blockwise. Qed.
+Print Assumptions C02_sgd_step_blockwise.
+
+Theorem C02_adagrad_step_blockwise : forall F (Op : ops F) hp w1 w2 s1 s2 n g1 g2,
+  length s1 = length w1 -> length g1 = length w1 ->
+  adagrad_step Op hp (mkAdagrad (w1 ++ w2) (s1 ++ s2) n) (g1 ++ g2) =
+  let a := adagrad_step Op hp (mkAdagrad w1 s1 n) g1 in
+  let b := adagrad_step Op hp (mkAdagrad w2 s2 n) g2 in
+  mkAdagrad (ag_w a ++ ag_w b) (ag_sum a ++ ag_sum b) (S n).
+Proof. exact @adagrad_step_blockwise. Qed.
+Print Assumptions C02_adagrad_step_blockwise.
+
+Theorem C02_rmsprop_step_blockwise : forall F (Op : ops F) hp w1 w2 s1 s2 b1 b2 g1 g2,
+  length s1 = length w1 -> length b1 = length w1 -> length g1 = length w1 ->
+  rmsprop_step Op hp (mkRmsprop (w1 ++ w2) (s1 ++ s2) (b1 ++ b2)) (g1 ++ g2) =
+  let a := rmsprop_step Op hp (mkRmsprop w1 s1 b1) g1 in
+  let b := rmsprop_step Op hp (mkRmsprop w2 s2 b2) g2 in
+  mkRmsprop (rp_w a ++ rp_w b) (rp_sq a ++ rp_sq b) (rp_buf a ++ rp_buf b).
+Proof. exact @rmsprop_step_blockwise. Qed.
+Print Assumptions C02_rmsprop_step_blockwise.
+
+Theorem C02_adam_step_blockwise : forall F (Op : ops F) hp w1 w2 m1 m2 v1 v2 n g1 g2,
+  length m1 = length w1 -> length v1 = length w1 -> length g1 = length w1 ->
+  adam_step Op hp (mkAdam (w1 ++ w2) (m1 ++ m2) (v1 ++ v2) n) (g1 ++ g2) =
+  let a := adam_step Op hp (mkAdam w1 m1 v1 n) g1 in
+  let b := adam_step Op hp (mkAdam w2 m2 v2 n) g2 in
+  mkAdam (ad_w a ++ ad_w b) (ad_m a ++ ad_m b) (ad_v a ++ ad_v b) (S n).
+Proof. exact @adam_step_blockwise. Qed.
+Print Assumptions C02_adam_step_blockwise.
+
+Theorem C02_adamw_step_blockwise : forall F (Op : ops F) hp w1 w2 m1 m2 v1 v2 n g1 g2,
+  length m1 = length w1 -> length v1 = length w1 -> length g1 = length w1 ->
+  adamw_step Op hp (mkAdam (w1 ++ w2) (m1 ++ m2) (v1 ++ v2) n) (g1 ++ g2) =
+  let a := adamw_step Op hp (mkAdam w1 m1 v1 n) g1 in
+  let b := adamw_step Op hp (mkAdam w2 m2 v2 n) g2 in
+  mkAdam (ad_w a ++ ad_w b) (ad_m a ++ ad_m b) (ad_v a ++ ad_v b) (S n).
+Proof. exact @adamw_step_blockwise. Qed.
+Print Assumptions C02_adamw_step_blockwise.
+
+(* whole group histories: iterating Optimizer.group_step and looking at the k-th block is [sh_run] over that block's events,
+   so the per-block warm-up theorems above speak about the real group step, for every history *)
+Theorem C02_group_run_block : forall F (Op : ops F) c k b0 i0 hist t bs,
+  (k < length bs)%nat -> Forall (fun hi => length (snd hi) = length bs) hist ->
+  map (view_block k b0) (group_run Op c t bs hist)
+  = sh_run Op c (b_dims (nth k bs b0)) (mkBs t (b_w (nth k bs b0)) (b_st (nth k bs b0))) (block_events k i0 hist).
+Proof. exact @group_run_block. Qed.
+Print Assumptions C02_group_run_block.
